@@ -200,7 +200,7 @@ def env():
         'jnpf32': jnp.float32(0.25), 'jnp0d': jnp.asarray(4.0, f32), 'pyc': 2 + 1j, 'npc64': np.complex64(0.5 + 2j), 'jnpc64': jnp.asarray(1 - 1j, jnp.complex64), 'jnp1d': jnp.asarray([2.0, 3.0], f32),
         'np1d': np.array([2.0, 3.0], np.float32), 'list': [2.0, 3.0],
     }
-    _E.update(leaves=leaves, mats=mats, scal=scal)
+    _E.update(leaves=leaves, mats=mats, scal=scal, arity={n: len(leaves[n].operands) for n in ('PQ', 'PpQ', 'SPQ', 'DPQ')})
     return _E
 
 
@@ -351,6 +351,21 @@ def run(phase, cases, ctx):
         except P.LibError as ex:
             violations.append({'kind': 'apply-raises', 'case': case, 'detail': f'{ex}\n{ex.tb}'})
             continue
+        # building a larger expression must leave its operands as they were: the composite leaves used by this tree still
+        # denote what they denoted when the worker started (same operands, same structures, same matrix)
+        for name in ('PQ', 'PpQ', 'SPQ', 'DPQ'):
+            if f'"{name}"' in text and name not in E.get('reported', ()):
+                leaf = E['leaves'][name]
+                try:
+                    now = P.probe(leaf, cache=False).M
+                    same = now.shape == E['mats'][name].shape and P.close(now, E['mats'][name], 1e-6) and len(leaf.operands) == E['arity'][name]
+                except P.LibError:
+                    same = False
+                if not same:
+                    violations.append({'kind': 'operand-changed-by-building-an-expression', 'case': case,
+                                       'detail': f'after this expression was built the composite operand {name} has {len(leaf.operands)} operands (had {E["arity"][name]}) and no longer denotes its matrix'})
+                    E.setdefault('reported', set()).add(name)   # once per worker
+                    break
         nontrivial.add(text)
         if len(samples) < 2 and len(text) > 60:
             samples.append(case)
